@@ -26,6 +26,49 @@ void store_result(ExecCtx &c, int dst, Sp<k> &&r) {
   }
 }
 
+// Operand value category. The objects of a task's private pool are non-const
+// objects; a caller may hand them to the library as const lvalues, as
+// non-const lvalues (`auto r = op * s;`) or as xvalues (`std::move(a) + b`).
+// Overload resolution can differ between the three (a forwarding-reference
+// overload is an exact match for `S &` and beats `const S &`; an
+// rvalue-qualified overload may pilfer). Shared-pool objects are const objects
+// and always passed as such. The category of a private operand is a function
+// of the operation's arguments (part of the plan, shrinks with it).
+//   0 const lvalue, 1 non-const lvalue, 2 xvalue (the operand may then be left
+//   in any *valid* state: it is recorded as pilferable, C10 still judges it)
+enum ValueCat : int { CAT_CONST = 0, CAT_LVALUE = 1, CAT_XVALUE = 2 };
+inline int private_sp_slot(const ExecCtx &c, const void *obj) {
+  for (int i = 0; i < NP; i++)
+    if (c.pool.p[i] && static_cast<const void *>(&*c.pool.p[i]) == obj) return SLOT_P0 + i;
+  return -1;
+}
+inline int value_cat(ExecCtx &c, const void *obj, unsigned which, bool allow_xvalue) {
+  const char *p = static_cast<const char *>(obj), *lo = reinterpret_cast<const char *>(&c.pool);
+  if (p < lo || p >= lo + sizeof(Pool)) return CAT_CONST;
+  uint64_t h = sim::mix64(((uint64_t)c.op.a << 48) ^ ((uint64_t)c.op.b << 32) ^ ((uint64_t)c.op.c << 16) ^ c.op.d ^ 0x1fULL);
+  unsigned x = (unsigned)((h >> (8 * which)) & 7);  // 0..3 const, 4..5 lvalue, 6..7 xvalue
+  int cat = x < 4 ? CAT_CONST : x < 6 ? CAT_LVALUE : CAT_XVALUE;
+  if (cat == CAT_XVALUE) {
+    int slot = allow_xvalue ? private_sp_slot(c, obj) : -1;
+    if (slot < 0) return CAT_LVALUE;
+    (c.out.pilfer1 < 0 ? c.out.pilfer1 : c.out.pilfer2) = slot;
+  }
+  return cat;
+}
+#define SIM_FWD(x) std::forward<decltype(x)>(x)
+template <class X, class F>
+void as_cat(int cat, const X &x, F &&f) {
+  if (cat == CAT_XVALUE) {
+    probe(PR_XVALUE_OPERAND);
+    f(std::move(const_cast<X &>(x)));
+  } else if (cat == CAT_LVALUE) {
+    probe(PR_NONCONST_OPERAND);
+    f(const_cast<X &>(x));
+  } else {
+    f(x);
+  }
+}
+
 inline bool fault_fired() {
   return sim::g_cur->fired_alloc || sim::g_cur->fired_scalar || sim::g_cur->fired_cb;
 }
